@@ -113,7 +113,7 @@ def check(case, rec):
 
 
 def strat_general(tier):
-    mx = 40 if tier == "quick" else 400
+    mx = 40 if tier == "quick" else 200
     return st.fixed_dictionaries(dict(entries=S.config_entries(mx, 254), extra=st.lists(st.binary(min_size=1, max_size=117), max_size=3)))
 
 
@@ -168,7 +168,7 @@ def strat_oversize(draw, tier="quick"):
 
 def parts(tier):
     return [
-        Part("general", check=check, strategy=strat_general, quick=(16, 300), thorough=(16, 8000)),
+        Part("general", check=check, strategy=strat_general, quick=(16, 300), thorough=(16, 2500)),
         Part("size_target", check=check, strategy=lambda t: strat_target(t), quick=(16, 500), thorough=(16, 10000)),
         Part("oversize", check=check, strategy=lambda t: strat_oversize(t), quick=(8, 200), thorough=(16, 3000)),
     ]
